@@ -298,6 +298,7 @@ func runSession(s *Session) *SessResult {
 	waitWritten(s.RegLines, 20*time.Second)
 	nbar := 0
 	closed := false
+	var getConnectNow func(err error)
 	barrier := func() bool {
 		if closed {
 			return true
@@ -305,7 +306,14 @@ func runSession(s *Session) *SessResult {
 		nbar++
 		tok := fmt.Sprintf("vbar%d", nbar)
 		if !send("PING :" + tok) {
-			return false
+			// the client side is gone: Connect is returning
+			select {
+			case err := <-connDone:
+				getConnectNow(err)
+				return true
+			case <-time.After(15 * time.Second):
+				return false
+			}
 		}
 		deadline := time.After(15 * time.Second)
 		for {
@@ -322,6 +330,9 @@ func runSession(s *Session) *SessResult {
 			}
 			select {
 			case <-cond:
+			case err := <-connDone:
+				getConnectNow(err)
+				return true
 			case <-time.After(20 * time.Millisecond):
 			case <-deadline:
 				return false
@@ -341,6 +352,10 @@ func runSession(s *Session) *SessResult {
 		case <-time.After(15 * time.Second):
 			return false
 		}
+	}
+	getConnectNow = func(err error) {
+		res.Connect = classifyErr(err)
+		closed = true
 	}
 	getConnect := func() bool {
 		select {
@@ -376,8 +391,12 @@ func runSession(s *Session) *SessResult {
 		case "waitnick":
 			dl := time.Now().Add(15 * time.Second)
 			// the tracked nick itself (GetNick falls back to Config.Nick while it is still empty)
-			for girc.VerifDumpState(c)[0] != "nick="+st.Arg && time.Now().Before(dl) {
-				time.Sleep(time.Millisecond)
+			for !closed && girc.VerifDumpState(c)[0] != "nick="+st.Arg && time.Now().Before(dl) {
+				select {
+				case err := <-connDone:
+					getConnectNow(err)
+				case <-time.After(time.Millisecond):
+				}
 			}
 		case "call":
 			done := make(chan struct{})
@@ -399,7 +418,11 @@ func runSession(s *Session) *SessResult {
 		case "waitwritten":
 			var n int
 			fmt.Sscan(st.Arg, &n)
-			waitWritten(n, 3*time.Second)
+			if !closed {
+				waitWritten(n, 3*time.Second)
+			} else {
+				waitWritten(n, 200*time.Millisecond)
+			}
 		case "waitconnect":
 			select {
 			case err := <-connDone:
